@@ -221,7 +221,10 @@ func (p *n09Proxy) serve(c net.Conn) {
 	if !p.track(c) {
 		return
 	}
-	s, err := net.DialTimeout("tcp", p.target, 2*time.Second)
+	p.mu.Lock()
+	target := p.target
+	p.mu.Unlock()
+	s, err := net.DialTimeout("tcp", target, 2*time.Second)
 	if err != nil {
 		_ = c.Close()
 		return
@@ -692,7 +695,8 @@ func (v *n09Val) data() *protocol.LockCommandData {
 }
 
 type n09Op struct {
-	K    string  `json:"k"` // lock unlock rotate join stop stall unstall drop sync
+	K    string  `json:"k"` // lock unlock rotate restart join stop stall unstall drop sync
+	T    int     `json:"t,omitempty"` // Timeout in seconds (C10 scripts only; the C09 workload never waits)
 	F    int     `json:"f,omitempty"`
 	Wipe bool    `json:"wipe,omitempty"`
 	Db   int     `json:"db,omitempty"`
@@ -771,6 +775,7 @@ type n09Info struct {
 	knownDupFlush                      int
 	knownCompactedLog                  int
 	knownLeftOver                      int
+	leaderRestarts                     int
 	excludedEmptyRotation              int
 	excludedEmptyRingJoin              int
 	excludedRotationOverlap            int
@@ -849,11 +854,7 @@ func n09NewEnv(c *n09Case) (*n09Env, error) {
 		return nil, err
 	}
 	e.leader = leader
-	e.client = NewMemWaiterServerProtocol(leader.inst.slock)
-	_ = e.client.SetResultCallback(func(_ *MemWaiterServerProtocol, cmd *protocol.LockCommand, result uint8, lcount uint16, lrcount uint8, data []byte) error {
-		e.logf("    <- %s lcount=%d lrcount=%d data=%x", aResultName(result), lcount, lrcount, data)
-		return nil
-	})
+	e.newLeaderClient()
 	for i := 0; i < c.Followers; i++ {
 		var cuts []int64
 		if i < len(c.Cuts) {
@@ -997,7 +998,7 @@ func (e *n09Env) send(op n09Op) {
 	cmd.Flag = uint8(op.Flag)
 	cmd.DbId = uint8(op.Db)
 	cmd.LockId, cmd.LockKey = n09LockId(op.Id), n09Key(op.Key)
-	cmd.TimeoutFlag, cmd.Timeout = 0, 0
+	cmd.TimeoutFlag, cmd.Timeout = 0, uint16(op.T)
 	cmd.ExpriedFlag, cmd.Expried = uint16(op.EF), uint16(op.E)
 	cmd.Count, cmd.Rcount = uint16(op.Cnt), uint8(op.Rc)
 	cmd.Data = nil
@@ -1025,6 +1026,58 @@ func (e *n09Env) send(op n09Op) {
 			e.awaitFirstLive = nil
 		}
 	}
+}
+
+func (e *n09Env) newLeaderClient() {
+	e.client = NewMemWaiterServerProtocol(e.leader.inst.slock)
+	_ = e.client.SetResultCallback(func(_ *MemWaiterServerProtocol, cmd *protocol.LockCommand, result uint8, lcount uint16, lrcount uint8, data []byte) error {
+		e.logf("    <- %s lcount=%d lrcount=%d data=%x", aResultName(result), lcount, lrcount, data)
+		return nil
+	})
+}
+
+// restartLeader stops the leader and starts a fresh instance on the same directory (as engine P does): the
+// ring is empty afterwards, the position is the last record of the log. Followers are stopped first (their
+// directories stay: a later join is a stale rejoin, or an empty one if the join says wipe) and reach the new
+// leader through their proxies. From here on "the leader's state" is what the restart recovered.
+func (e *n09Env) restartLeader() string {
+	for i := range e.slots {
+		e.stop(i)
+	}
+	old := e.leader
+	aof := old.inst.slock.aof
+	n09Drain(aof)
+	_ = aof.WaitRewriteAofFiles()
+	aof.FlushWithLocked()
+	if err := e.collectTruth(); err != nil {
+		return "cannot read the leader's files before the restart: " + err.Error()
+	}
+	dir := old.inst.dir
+	_ = e.client.Close()
+	before := atomic.LoadInt64(&vAbandoned)
+	old.close(false)
+	if atomic.LoadInt64(&vAbandoned) != before {
+		e.harnessTainted = "teardown of the leader was abandoned before its restart"
+	}
+	o := n09InstOpts(e.c)
+	o.DataDir = dir
+	leader, err := n09StartNode(o, false)
+	if err != nil {
+		return "leader restart failed: " + err.Error()
+	}
+	e.leader = leader
+	e.newLeaderClient()
+	for _, s := range e.slots {
+		s.proxy.mu.Lock()
+		s.proxy.target = leader.addr
+		s.proxy.mu.Unlock()
+	}
+	_ = leader.inst.slock.aof.WaitRewriteAofFiles() // the compaction LoadAndInit starts
+	n09Drain(leader.inst.slock.aof)
+	e.info.leaderRestarts++
+	mgr := leader.inst.slock.replicationManager
+	e.logf("    (leader restarted: position %s, ring seq %d)", FormatAofId(mgr.currentAofId), mgr.bufferQueue.seq)
+	return ""
 }
 
 // rotate is Admin.commandHandleRewriteAofCommand; before the switch the harness copies the file
@@ -1788,13 +1841,13 @@ func (e *n09Env) checkFiles(f int, target n09Id) (key, msg string) {
 
 func (e *n09Env) syncAndCheck(final bool) (key, violation, inconclusive string) {
 	target, seq := e.leaderTarget()
-	if seq == 0 {
-		return "", "", ""
-	}
-	e.info.syncs++
 	var tl AofLock
 	tl.SetAofId(target)
 	tid := n09Id{tl.AofIndex, tl.AofOffset}
+	if seq == 0 && (tid.Off == 0 || tl.CommandTime == 0) {
+		return "", "", "" // nothing logged yet (a restarted leader has an empty ring but a position: its last record)
+	}
+	e.info.syncs++
 	var active []int
 	for i, s := range e.slots {
 		if s.node != nil && !s.stall {
@@ -1971,6 +2024,11 @@ func n09RunCluster(c *n09Case) (out n09Out) {
 			e.send(op)
 		case "rotate":
 			e.rotate()
+		case "restart":
+			if why := e.restartLeader(); why != "" {
+				out.inconclusive = why
+				return
+			}
 		case "join":
 			if op.F < len(e.slots) {
 				if jerr := e.join(op); jerr != nil {
